@@ -223,6 +223,7 @@ def write_evidence(pid, cfg, tier, seed, vres, kres, violations, known_hits, und
     evdir = os.environ.get("VERIF_EVIDENCE_DIR") or os.path.join(VERIF, "evidence")
     os.makedirs(evdir, exist_ok=True)
     fns_contract, fns_trusted, norms, samples, trusted_scan = [], [], [], [], {}
+    seen_items = {}
     obligations = discharged = 0
     smt_ms = 0
     cmds = []
@@ -240,12 +241,19 @@ def write_evidence(pid, cfg, tier, seed, vres, kres, violations, known_hits, und
             for b in meta["blocks"]:
                 ent = {"item": b["path"], "file": os.path.join(REPO, b["file"]), "lines": [b["src_line_start"], b["src_line_end"]],
                        "content_fnv64": b["src_hash"], "unit": r["unit"]}
+                key = (b["path"], b["file"], b["mode"])
+                if key in seen_items:
+                    seen_items[key]["units"].append(r["unit"])
+                    continue
+                ent["units"] = [r["unit"]]
+                seen_items[key] = ent
                 if b["mode"] == "trusted":
                     fns_trusted.append(ent)
                 else:
                     fns_contract.append(ent)
                 for n in b["normalisations"]:
-                    norms.append(f"{b['path']}: {n}")
+                    if f"{b['path']}: {n}" not in norms:
+                        norms.append(f"{b['path']}: {n}")
         for f in r["functions"][:400]:
             if f["success"] and len(samples) < 12 and f["mode"] == "exec":
                 samples.append({"obligation": f"{r['unit']}/{f['name']} (all VCs of this function)", "back_end": "verus/z3",
